@@ -882,3 +882,6 @@ if __name__ == "__main__":
     except Unsupported as e:
         print("UNSUPPORTED: %s" % e)
         sys.exit(3)
+    except Exception as e:  # fail closed: anything the translator cannot digest is "unsupported", never a guess
+        print("UNSUPPORTED: the source has a shape the translator does not handle (%s: %s)" % (type(e).__name__, str(e)[:200]))
+        sys.exit(3)
